@@ -2203,8 +2203,9 @@ chld_cb(EV_P_ ev_child *c, int UNUSED(revents))
 	c->rpid = c->pid = 0;
 	t->nsim--;
 
-	if (UNLIKELY(t->w.reschedule_cb == NULL)) {
-		/* we promised taskB_cb to kill this guy */
+	if (UNLIKELY(t->w.reschedule_cb == NULL && !t->nsim)) {
+		/* we promised taskB_cb to kill this guy,
+		 * the last child to finish does that */
 		unsched(EV_A_ &t->w, 0);
 	}
 	free_chld(c);
